@@ -34,7 +34,10 @@ Inductive ty :=
 | Ellip                            (* the `...` inside Tuple[t, ...]; only ever an element of get_args *)
 (* ---- supported: a forward reference to a class that is not a module-level name (defined inside a function or
         nested in a class): neither the module globals nor a scan of the loaded modules find it, only the diagram can *)
-| FwdLocal (n : name).
+| FwdLocal (n : name)
+(* ---- outside the supported grammar: a union of two types neither of which is None, written a | b (pep = true,
+        types.UnionType) or Union[a, b] (typing.Union) ---- *)
+| UnionPair (pep : bool) (a b : ty).
 
 Definition builtin_eqb (a b : builtin) : bool :=
   match a, b with
@@ -65,6 +68,7 @@ Fixpoint ty_eqb (a b : ty) : bool :=
   | Bare o, Bare o' => origin_eqb o o'
   | Ellip, Ellip => true
   | FwdLocal x, FwdLocal y => Pos.eqb x y
+  | UnionPair p x y, UnionPair q x' y' => Bool.eqb p q && ty_eqb x x' && ty_eqb y y'
   | _, _ => false
   end.
 
@@ -89,6 +93,7 @@ Proof.
   - rewrite andb_true_iff, IHa1, IHa2. split; [intros [-> ->]; auto | intros H; injection H; auto].
   - rewrite origin_eqb_eq. split; congruence.
   - rewrite Pos.eqb_eq. split; congruence.
+  - rewrite !andb_true_iff, Bool.eqb_true_iff, IHa1, IHa2. split; [intros [[-> ->] ->]; auto | intros H; injection H; auto].
 Qed.
 Lemma ty_eqb_refl a : ty_eqb a a = true.
 Proof. now apply ty_eqb_eq. Qed.
@@ -127,6 +132,7 @@ Definition get_origin (t : ty) : origin :=
   match t with
   | Optional _ | OptionalL _ => OUnion
   | Pep604 _ => OUnionType
+  | UnionPair pep _ _ => if pep then OUnionType else OUnion
   | Cont k _ => korigin k
   | TypeOf _ => OType
   | DictOf _ _ => ODict
@@ -144,6 +150,7 @@ Definition get_args (t : ty) : list ty :=
   | Cont _ a => [a]
   | TypeOf a => [a]
   | DictOf k v => [k; v]
+  | UnionPair _ a b => [a; b]
   | _ => []
   end.
 
